@@ -62,7 +62,12 @@ Definition bump (st : pstate) : pstate :=
   mkSt (S (tidx st)) (skip st) (user_message st) (bot_message st) (trig_in st) (trig_out st) (hist st) (raw st).
 
 (* what the dialog flows dictate after the user intent is known *)
-Inductive dstep := DBot (bot_intent : string) | DAsk.
+Inductive dstep :=
+| DBot (bot_intent : string)     (* a dialog flow dictates `bot <intent>` *)
+| DAsk                           (* no flow applies: the next step is asked from the LLM *)
+| DBotVar (m : text).            (* a dialog flow runs a custom action and utters its result:
+                                    `$answer = execute rag()` / `bot $answer` - text produced by an
+                                    (LLM-calling) action, provenance FromLLM, NOT a predefined message *)
 
 Section V1.
   Variable vf : nat -> nat -> rail -> text -> verdict.   (* turn, call index, rail, text shown *)
@@ -105,21 +110,29 @@ Section V1.
     let t := tidx st in
     if dialog cf then
       let p0 := mkPrompt KIntent h um in
-      let '(bi, tr1, n) :=
-        match intent_step t (llm t 0 p0) with
-        | DBot bi => (bi, [TLLM 0 p0], 1)
-        | DAsk => let p1 := mkPrompt KNext h um in
-                  (next_of (llm t 1 p1), [TLLM 0 p0; TLLM 1 p1], 2)
-        end in
-      match predefined bi with
-      | Some m =>
-        let '(st', tr, c', rp) := process_bot cf (set_skip st true) c m in
-        (st', tr1 ++ TBot Predefined m :: tr, c', rp)
-      | None =>
-        let p2 := mkPrompt KBotMsg h um in
-        let m := msg_of (llm t n p2) in
+      match intent_step t (llm t 0 p0) with
+      | DBotVar m =>
+        (* generate_bot_message, branch `bot $variable`: the utterance is the variable's value; it
+           is a BotMessage like any other - skip_output_rails is NOT set *)
         let '(st', tr, c', rp) := process_bot cf st c m in
-        (st', tr1 ++ TLLM n p2 :: TBot FromLLM m :: tr, c', rp)
+        (st', TLLM 0 p0 :: TBot FromLLM m :: tr, c', rp)
+      | step =>
+        let '(bi, tr1, n) :=
+          match step with
+          | DBot bi => (bi, [TLLM 0 p0], 1)
+          | _ => let p1 := mkPrompt KNext h um in
+                 (next_of (llm t 1 p1), [TLLM 0 p0; TLLM 1 p1], 2)
+          end in
+        match predefined bi with
+        | Some m =>
+          let '(st', tr, c', rp) := process_bot cf (set_skip st true) c m in
+          (st', tr1 ++ TBot Predefined m :: tr, c', rp)
+        | None =>
+          let p2 := mkPrompt KBotMsg h um in
+          let m := msg_of (llm t n p2) in
+          let '(st', tr, c', rp) := process_bot cf st c m in
+          (st', tr1 ++ TLLM n p2 :: TBot FromLLM m :: tr, c', rp)
+        end
       end
     else
       (* passthrough sends the caller's message list (last user message replaced by $user_message) *)
